@@ -326,7 +326,15 @@ pub fn gen_lib(src: &mut Src) -> HLib {
                     let (y, z) = (pts[pts.len() - 2], pts[pts.len() - 1]);
                     let d1 = ((z.0 - y.0).signum(), (z.1 - y.1).signum());
                     let beyond = (z.0 + d1.0 * h - d1.1 * h, z.1 + d1.1 * h - d1.0 * h);
-                    vec![pts[i], ((pts[i].0 + pts[i + 1].0) / 2, (pts[i].1 + pts[i + 1].1) / 2), (pts[i].0, pts[i].1 + 30), behind, beyond]
+                    // beside the centre line, inside the wire: off the bounding box of the centre-line points
+                    // when the wire is straight (only for Manhattan segments, where "inside" is decided exactly)
+                    let (p, q) = (pts[i], pts[i + 1]);
+                    let mid = ((p.0 + q.0) / 2, (p.1 + q.1) / 2);
+                    let dir = ((q.0 - p.0).signum(), (q.1 - p.1).signum());
+                    let k = (*w / 2 - 1).max(0);
+                    let beside = if dir.0 == 0 || dir.1 == 0 { (mid.0 + dir.1 * k, mid.1 + dir.0 * k) } else { mid };
+                    let beside2 = if dir.0 == 0 || dir.1 == 0 { (mid.0 - dir.1 * k, mid.1 - dir.0 * k) } else { mid };
+                    vec![pts[i], mid, (pts[i].0, pts[i].1 + 30), behind, beyond, beside, beside2]
                 }
             };
             let loc = cand[src.index(cand.len())];
@@ -383,6 +391,12 @@ pub fn gen_lib(src: &mut Src) -> HLib {
                     refs.push(HRef::S { target, loc, o, none_angle: src.bool(), mag1: src.prob(1, 6) });
                 }
             }
+        }
+        // the same reference twice in a row (two copies of a cell on top of each other are two placements)
+        if !refs.is_empty() && src.prob(1, 6) {
+            let k = src.index(refs.len());
+            let d = refs[k].clone();
+            refs.insert(k + 1, d);
         }
         let total = shapes.len() + labels.len() + refs.len();
         let mut order: Vec<usize> = (0..total).collect();
